@@ -396,6 +396,18 @@ def do(op: dict) -> str:
         attrs = {"period": getattr(sv, "period", None), "gamma": float(sv.gamma), "epsilon": float(sv.epsilon), "problem_class": pcls,
                  "n_states": int(sv.problem.n_states)}
         return "config=" + json.dumps(c, sort_keys=True, default=str).replace(" ", "") + " attrs=" + json.dumps(attrs, sort_keys=True).replace(" ", "")
+    if o == "cpdir":
+        import shutil as _sh
+        for kind_, sv_ in SOLVERS.values():
+            cm = getattr(sv_, "checkpoint_manager", None)
+            if cm is not None:
+                cm.wait_until_finished()
+        _sh.copytree(real_dir(op["src"]), real_dir(op["dst"]))
+        return "ok"
+    if o == "rmdir":
+        import shutil as _sh
+        _sh.rmtree(real_dir(op["dir"]), ignore_errors=True)
+        return "ok"
     if o == "mktmp":
         os.makedirs(os.path.join(real_dir(op["dir"]), op["name"]), exist_ok=True)
         return "ok"
